@@ -507,6 +507,51 @@ impl<'a> Ctx<'a> {
                 out.push(MSelection::Field(f2));
             }
         }
+        // a composite field of this level once more under an inline fragment without type condition, whose
+        // directives may be variable conditions: the occurrences then differ, per variable assignment, only in
+        // their nested selections (the first occurrence, the one written at this level, carries no condition)
+        if depth <= self.o.max_depth && ch.chance(1, 6) {
+            let comps: Vec<usize> = out.iter().enumerate().filter(|(_, s)| matches!(s, MSelection::Field(f) if f.sel.is_some() && f.directives.is_empty())).map(|(i, _)| i).collect();
+            if !comps.is_empty() {
+                let i = *ch.pick(&comps);
+                if let MSelection::Field(f) = &out[i] {
+                    let mut f2 = f.clone();
+                    if let Some(base) = self.s.field(parent, &f2.name).map(|d| d.ty.base().to_string()) {
+                        // half of the time the second occurrence adds exactly one leaf field the first one does not
+                        // select (the branches' field lists are then prefixes of one another)
+                        let already: BTreeSet<String> = f2.sel.iter().flatten().filter_map(|x| if let MSelection::Field(g) = x { Some(g.key().to_string()) } else { None }).collect();
+                        let extra: Vec<String> = self
+                            .s
+                            .types
+                            .get(&base)
+                            .map(|t| {
+                                t.fields
+                                    .iter()
+                                    .filter(|g| self.s.is_leaf(g.ty.base()) && !g.args.iter().any(|a| a.ty.is_non_null() && a.default.is_none()) && !already.contains(&g.name) && !self.variants.contains_key(&g.name))
+                                    .map(|g| g.name.clone())
+                                    .collect()
+                            })
+                            .unwrap_or_default();
+                        if !extra.is_empty() && self.s.kind(&base) == Some(Kind::Object) && ch.flip() {
+                            let name = ch.pick(&extra).clone();
+                            f2.sel = Some(vec![MSelection::Field(MFieldSel { alias: None, name, args: vec![], directives: vec![], sel: None })]);
+                        } else {
+                            f2.sel = Some(self.selection_set(ch, &base, depth + 1));
+                        }
+                        // mostly under a variable condition (that is what makes the occurrences differ per assignment)
+                        let directives = if self.allow_vars && self.o.skip_include && self.o.skip_include_vars && ch.chance(3, 4) {
+                            self.labels.insert("variable-condition");
+                            let v = self.bool_var(ch);
+                            vec![MDirective { name: if ch.flip() { "skip" } else { "include" }.into(), args: vec![("if".into(), v)] }]
+                        } else {
+                            self.directives(ch, "INLINE_FRAGMENT")
+                        };
+                        self.labels.insert("merged-composite-key-under-inline-fragment");
+                        out.push(MSelection::Inline { on: None, directives, sel: vec![MSelection::Field(f2)] });
+                    }
+                }
+            }
+        }
         out
     }
 }
